@@ -33,7 +33,7 @@ EXPLANATION = (
     "serialisers read the live arrays."
 )
 ASSUMPTIONS = ["numpy constructors listed in SHAPERS are the only way the code changes an array's shape"]
-FLOORS = {"C14.R1": 5, "C14.R2": 1, "C14.R3": 8, "C14.R4": 2}
+FLOORS = {"C14.R1": 3, "C14.R2": 1, "C14.R3": 8, "C14.R4": 2}
 
 
 def _shaping(value):
@@ -76,39 +76,66 @@ def run(chk):
 
 
 def r1_together(chk, ens):
+    """Path rule: on every way through a method (normal exits), the arrays that hold one row per conformer are rebound to a new
+    shape all three or not at all.  Plus: a count taken from another ensemble (which may be this very ensemble: `ens.extend(ens)`)
+    is read before any array of self is rebound."""
+    from ..canon import Env, dominating_def
+    from ..cfg import CFG
+
     prog = chk.prog
     n = 0
+    live = {g.key for g in prog.functions(["molli.chem.ensemble"])}
     for name, mem in ens.members.items():
         for node in (mem.func, mem.setter):
             if node is None:
                 continue
             f = prog.method(ens, name, "func" if node is mem.func else "setter")
-            for bi, blk in enumerate(_blocks(node)):
-                reb = {}
+            if f is None or f.key not in live:
+                continue  # a new private helper that was expanded into its callers is judged there
+            reb = {a: [s for s in walk_no_nested(node) if isinstance(s, ast.Assign) and f"self.{a}" in stored_paths(s) and _shaping(s.value)] for a in ARRAYS}
+            if not any(reb.values()):
+                continue
+            n += 1
+            chk.analysed(f)
+            cfg = CFG(node)
+
+            def ids(stmts):
+                return {nd.id for nd in cfg.nodes if nd.kind == "stmt" and any(nd.ast is s for s in stmts)}
+
+            def ok_edge(a, b, lab):
+                return lab not in ("exc", "raise", "except")
+
+            first = next(s for a in ARRAYS for s in reb[a])
+            key = f"{f.key}:arrays-change-together:{short(first.value, 36)}"
+            problem = None
+            for a in ARRAYS:
+                for s in reb[a]:
+                    for b in ARRAYS:
+                        if b == a:
+                            continue
+                        bn = ids(reb[b])
+                        sn = ids([s])
+                        to_s = cfg.path([cfg.entry], sn, avoid=bn, edge_ok=ok_edge)
+                        from_s = cfg.path(list(sn), {cfg.exit}, avoid=bn, edge_ok=ok_edge)
+                        if to_s is not None and from_s is not None and problem is None:
+                            problem = (s, a, b)
+            if problem:
+                s, a, b = problem
+                chk.fail("C14.R1", key, f.where(s), f"`{short(s, 60)}` changes the number of conformers in {a} on a path through {f.qualname} that leaves {b} as it was: "
+                         "the ensemble stops being rectangular (coords, charges and weights describe different numbers of conformers)")
+                continue
+            # dimension agreement where shapes are literal tuples: per statement list that allocates all three
+            problems = []
+            dims = {}
+            for blk in _blocks(node):
+                dims = {}
                 for s in blk:
                     if isinstance(s, ast.Assign):
                         for a in ARRAYS:
-                            if f"self.{a}" in stored_paths(s) and _shaping(s.value):
-                                reb[a] = s
-                if not reb:
-                    continue
-                n += 1
-                chk.analysed(f)
-                first = list(reb.values())[0]
-                key = f"{f.key}:arrays-change-together:{short(first.value, 36)}"
-                missing = [a for a in ARRAYS if a not in reb]
-                if missing:
-                    chk.fail("C14.R1", key, f.where(first),
-                             f"`{short(first, 60)}` changes the number of conformers in {', '.join(sorted(reb))} but the same block leaves {', '.join(missing)} as it was: "
-                             "the ensemble stops being rectangular (coords, charges and weights describe different numbers of conformers)")
-                    continue
-                # dimension agreement where shapes are literal tuples
-                dims = {}
-                for a, s in reb.items():
-                    for c in ast.walk(s.value):
-                        if isinstance(c, ast.Call) and (call_name(c) or "").split(".")[-1] in ("full", "zeros", "ones", "empty") and c.args and isinstance(c.args[0], ast.Tuple):
-                            dims[a] = [norm(x) for x in c.args[0].elts]
-                problems = []
+                            if f"self.{a}" in stored_paths(s):
+                                for c in ast.walk(s.value):
+                                    if isinstance(c, ast.Call) and (call_name(c) or "").split(".")[-1] in ("full", "zeros", "ones", "empty") and c.args and isinstance(c.args[0], ast.Tuple):
+                                        dims[a] = [norm(x) for x in c.args[0].elts]
                 if len(dims) == 3 and (len(dims["_coords"]) < 2 or len(dims["_atomic_charges"]) < 2 or len(dims["_weights"]) < 1):
                     problems.append(f"ranks are {[len(dims[a]) for a in ARRAYS]}, expected 3 / 2 / 1")
                 elif len(dims) == 3:
@@ -120,9 +147,54 @@ def r1_together(chk, ens):
                         problems.append(f"atom counts differ: {sorted(na)}")
                     if dims["_coords"][2:] != ["3"] or len(dims["_atomic_charges"]) != 2 or len(dims["_weights"]) != 1:
                         problems.append(f"ranks are {[len(dims[a]) for a in ARRAYS]}, expected 3 / 2 / 1")
-                chk.decide(not problems, "C14.R1", key, f.where(first), "all three arrays are rebound together" + (f" with shapes {dims}" if dims else ""),
-                           "; ".join(problems))
-    chk.require(n >= 4, f"only {n} array-rebinding blocks found in ConformerEnsemble")
+            # a size read from another object after self was already changed: wrong when that object is self
+            others = [p for p in f.params()[1:]]
+            allreb = [s for a in ARRAYS for s in reb[a]]
+            defs_of = {}
+            for t in walk_no_nested(node):
+                if isinstance(t, ast.Assign) and len(t.targets) == 1 and isinstance(t.targets[0], ast.Name):
+                    defs_of.setdefault(t.targets[0].id, []).append(t)
+            for s in allreb:
+                for nm in {x.id for x in ast.walk(s.value) if isinstance(x, ast.Name) and isinstance(x.ctx, ast.Load)}:
+                    for dstmt in defs_of.get(nm, []):
+                        if not any(isinstance(x, ast.Attribute) and isinstance(x.value, ast.Name) and x.value.id in others and x.attr.startswith("n_") for x in ast.walk(dstmt.value)):
+                            continue
+                        dn = ids([dstmt])
+                        earlier = [r for r in allreb if r is not s and cfg.path(list(ids([r])), dn, edge_ok=ok_edge) is not None]
+                        if earlier and not any("is evaluated after" in p_ for p_ in problems):
+                            problems.append(f"`{short(dstmt, 50)}` is evaluated after `{short(earlier[0], 50)}` has already changed this ensemble: when the other ensemble is this one "
+                                            f"(ens.{name}(ens)) the count read is the new one, and {', '.join(a for a in ARRAYS if s in reb[a])} gets a different number of rows than the array rebound first")
+            # the step that can be refused (joining rows that come from the argument: their shape may not fit) comes before anything is changed
+            tainted = set(others)
+            grow = True
+            while grow:
+                grow = False
+                for nm_, ds in defs_of.items():
+                    if nm_ not in tainted and any({x.id for x in ast.walk(d.value) if isinstance(x, ast.Name)} & tainted for d in ds):
+                        tainted.add(nm_)
+                        grow = True
+
+            def fallible(st):
+                for c in ast.walk(st.value):
+                    if isinstance(c, ast.Call) and (call_name(c) or "").split(".")[-1] in ("append", "vstack", "concatenate", "stack") and (call_name(c) or "").split(".")[0] in ("np", "numpy"):
+                        for a_ in c.args:
+                            parts = a_.elts if isinstance(a_, (ast.Tuple, ast.List)) else [a_]
+                            for p_ in parts:
+                                maker = isinstance(p_, ast.Call) and (call_name(p_) or "").split(".")[-1] in ("zeros", "ones", "full", "empty")
+                                if not maker and {x.id for x in ast.walk(p_) if isinstance(x, ast.Name)} & tainted and "self." in norm(c):
+                                    return True
+                return False
+
+            for s in allreb:
+                if fallible(s):
+                    before = [r for r in allreb if r is not s and not any(r in reb[a] and s in reb[a] for a in ARRAYS) and cfg.path(list(ids([r])), ids([s]), edge_ok=ok_edge) is not None]
+                    if before:
+                        problems.append(f"`{short(s, 50)}` joins rows that come from the argument and raises when their shape does not fit, but `{short(before[0], 50)}` has run by then: "
+                                        "a refused call leaves the arrays with different numbers of conformers")
+                        break
+            chk.decide(not problems, "C14.R1", key, f.where(first), "all three arrays are rebound on the same paths" + (f" with shapes {dims}" if dims else ""),
+                       "; ".join(problems))
+    chk.require(n >= 3, f"only {n} array-rebinding methods found in ConformerEnsemble")
 
 
 def r2_iter(chk, ens):
